@@ -26,7 +26,14 @@ type World struct {
 	fns   map[string]*ssa.Function
 }
 
-const repoLib = "/repo/lib"
+// repoLib: the library under verification.  The registered checks always use /repo/lib; GOCV_REPO_LIB lets the seeded-change
+// runner point the same engine at a scratch clone so that /repo's working tree is not touched while it runs.
+var repoLib = func() string {
+	if r := os.Getenv("GOCV_REPO_LIB"); r != "" {
+		return r
+	}
+	return "/repo/lib"
+}()
 
 func loadWorld() (*World, error) {
 	prog, spkgs, pkgs := loadProgram(repoLib, ssa.NaiveForm|ssa.InstantiateGenerics, "./...")
